@@ -17,7 +17,7 @@ type 'l desc = {
   fields : 'l -> string;
   contents : 'l -> BinNums.coq_Z list;
   payload : 'l -> BinNums.coq_Z list;
-  next : 'l -> string;
+  next : string -> 'l -> string;   (* decode class -> layer -> next id *)
   render_panics : 'l -> bool;
   of_spec : string -> 'l;
   junk_len : int;
@@ -25,7 +25,7 @@ type 'l desc = {
 
 let obs d cls tr l =
   Printf.sprintf "cls=%s;tr=%s;%s;c=%s;p=%s;next=%s;render=%s" cls (b01 tr) (d.fields l)
-    (hex_of_bytes (d.contents l)) (hex_of_bytes (d.payload l)) (d.next l) (if d.render_panics l then "panic" else "ok")
+    (hex_of_bytes (d.contents l)) (hex_of_bytes (d.payload l)) (d.next cls l) (if d.render_panics l then "panic" else "ok")
 
 let run_generic (d : 'l desc) (id : string) (ops : string list) (out : out_channel) =
   let step = ref 0 in
